@@ -893,19 +893,18 @@ impl LineBuf {
 	}
 	pub fn get_block_select_windows(&mut self, mode: &SelectMode) -> Vec<(usize,usize)> {
 		let SelectMode::Block { anchor: _, anchor_pos } = mode else { unreachable!() };
-		let mut anchor_pos = *anchor_pos;
-		let mut cursor_pos = self.cursor.get();
-		let cursor_col = self.index_col(cursor_pos);
-		let anchor_col = self.index_col(anchor_pos);
+		let anchor_pos = *anchor_pos;
+		let cursor_pos = self.cursor.get();
+		let mut cursor_col = self.index_col(cursor_pos);
+		let mut anchor_col = self.index_col(anchor_pos);
 
 		// horizontal end of the selection must be incremented
+		// (the column, not the position: one past a line terminator is the next line's first column)
 		if cursor_col >= anchor_col {
-			cursor_pos += 1;
+			cursor_col += 1;
 		} else {
-			anchor_pos += 1;
+			anchor_col += 1;
 		}
-		let cursor_col = self.index_col(cursor_pos);
-		let anchor_col = self.index_col(anchor_pos);
 
 		let (line_offset, _) = {
 			let cursor_line = self.cursor_line_number();
@@ -917,8 +916,6 @@ impl LineBuf {
 		};
 
 
-
-		let anchor_col = self.index_col(anchor_pos);
 		let cursor_line = self.cursor_line_number();
 		let (start,end) = ordered(cursor_line, cursor_line.saturating_add_signed(line_offset));
 
